@@ -372,6 +372,15 @@ impl DspRuntime for WasmDspRuntime {
                         new_skel.total_size() as usize,
                         "state_patch_plan.total_size must match new skeleton total size"
                     );
+                    // The WASM host grows its state storage on demand, so cells that were never
+                    // touched so far are absent from the snapshot, while the patch plan addresses
+                    // the whole old layout. Untouched cells are zero.
+                    let mut old_data = old_data.clone();
+                    let old_total_size = old_skel.total_size() as usize;
+                    if old_data.len() < old_total_size {
+                        old_data.resize(old_total_size, 0);
+                    }
+                    let old_data = &old_data;
                     if old_skel == new_skel && state_patch_plan.patches.is_empty() {
                         log::info!("No state structure change detected, copying buffer");
                         next_global_state = old_data.clone();
